@@ -11,6 +11,10 @@ def check(run):
     ec.spec_mutant(run, 'Q_C05swap', 'R_w2', 'alias_up_fields', maxA=1)
     ec.run_family(run, 'C05-assign', 'Q_C05', 'R_w2' if quick else 'R_w3N', maxA=2, hdrmodes=(False, True))
     ec.run_family(run, 'C05-swap', 'Q_C05swap', 'R_w3N', maxA=2 if quick else 3, hdrmodes=(False, True))
+    ec.run_family(run, 'C05-more-shapes', 'Q_C05more', 'R_w3N' if not quick else 'R_w3', maxA=2, hdrmodes=(False, True))
+    ec.run_family(run, 'C05-tricky-rhs', 'Q_C05tricky', 'R_2x2', maxA=2, hdrmodes=(False, True))
+    ec.run_family(run, 'C05-join-where-or', 'Q_C05joinor', 'R_2x2', recsB='R_2x2', maxA=2, maxB=1)
+    ec.run_family(run, 'C05-two-digit-targets', 'Q_C05wide', 'R_wide', maxA=2, hdrmodes=(False, True))
     ec.run_family(run, 'C05-join', 'Q_C05join', 'R_w2N' if not quick else 'R_w2', recsB='R_w2', maxA=2, maxB=2)
     run.exhaustive = True
 
